@@ -152,7 +152,7 @@ impl Fails {
             0
         } else if sig.starts_with("dup-of-") {
             9
-        } else if sig.starts_with("integrity:") && !sig.ends_with(":other") {
+        } else if (sig.starts_with("integrity:position-never-covered:") || sig.starts_with("integrity:value-never-received:")) && !sig.ends_with(":other") {
             8
         } else {
             1
@@ -1051,6 +1051,7 @@ fn check_hostile(c: &HostileCase, obs: &mut Obs) -> CheckResult {
 // ---- hostile: exhaustive small alphabet
 
 const HW: usize = 256;
+/// NOTE: /verif/regressions/C17/stale-*.json refer to these frames by index: append only.
 fn small_alphabet() -> Vec<HF> {
     let w = HW as u16;
     let s = 1000u64;
@@ -1256,7 +1257,7 @@ fn hostile_strategy() -> impl Strategy<Value = HostileCase> {
         prop::sample::select(vec![1u8, 1, 2, 2, 3, 8]),
         any::<bool>(),
         prop::collection::vec(group_strategy(), 1..=4),
-        prop::collection::vec((any::<u16>(), prop::collection::vec(any::<u8>(), 0..=16), 0u32..600, any::<u32>()), 0..=2),
+        prop::collection::vec((any::<u16>(), prop::collection::vec(any::<u8>(), 0..=16), prop_oneof![1 => Just(0u32), 2 => 0u32..600], any::<u32>()), 0..=2),
     )
         .prop_map(|(q, dirty, groups, raws)| {
             let mut all: Vec<(u32, HF)> = groups.into_iter().flatten().collect();
@@ -1267,7 +1268,7 @@ fn hostile_strategy() -> impl Strategy<Value = HostileCase> {
 }
 
 fn run_hostile(ctx: &Ctx) {
-    let n = ctx.tier.pick(150_000, 6_000_000);
+    let n = ctx.tier.pick(150_000, 4_000_000);
     ctx.run_prop("hostile-frames", n, hostile_strategy, check_hostile);
 }
 
@@ -1319,7 +1320,7 @@ fn check_code(c: &CodeCase, obs: &mut Obs) -> CheckResult {
     check_hostile(&hc, obs)
 }
 fn run_code(ctx: &Ctx) {
-    let n = ctx.tier.pick(100_000, 4_000_000);
+    let n = ctx.tier.pick(100_000, 3_000_000);
     ctx.run_prop(
         "hostile-bytecode",
         n,
